@@ -17,7 +17,7 @@ META = dict(
     technique="exhaustive enumeration of S-matrix settings x CTFs x scans x detectors x lazy/eager; differential oracle against conventional multislice",
     text="All combinations of cutoff, potential kind, interpolation, downsampling, 5 CTFs (incl. aberrations and a defocus distribution), 3 scans, "
          "4 detectors and both evaluation modes are reduced with the real SMatrix and compared with Probe.multislice through the same potential "
-         "(interpolation 1) or with the window-periodised probe up to an exhaustively searched roll (interpolation > 1).",
+         "(interpolation 1) or with the window-periodised probe up to an exhaustively searched roll (interpolation > 1). Five build / compute / reduce orders of the same reduction (interpolation 1, (2,1), 2 x one / two configurations) must agree.",
     note="Bound: 24x24 grid over 6x6 A, 2 slices, <= 6 positions. Tolerance 1e-4 of max (different algorithm, same mathematics). With a potential and "
          "interpolation > 1 PRISM is an approximation by design, so only the vacuum window probes are judged there.",
 )
